@@ -137,8 +137,8 @@ func main() {
 	case "minigol":
 		cfg.Slices, cfg.Maps, cfg.Structs, cfg.Strings, cfg.Methods, cfg.Widths, cfg.Consts, cfg.MultiRes = false, false, false, false, false, false, false, false
 		cfg.NoCompl, cfg.NoCalls = true, true
-	case "minigoc":
-		// packages of the MiniGoC fragment come from their own generator (progen.GenerateCalls)
+	case "minigoc", "minigos":
+		// packages of the MiniGoC / MiniGoS fragments come from their own generator (progen.GenerateCalls)
 	case "minigo-neg":
 		cfg.Slices, cfg.Maps, cfg.Structs, cfg.Strings, cfg.Methods, cfg.Widths, cfg.Consts, cfg.MultiRes = false, false, false, false, false, false, false, false
 		cfg.Loops, cfg.NoBlocks, cfg.NoCompl, cfg.NoCalls, cfg.Neg = false, true, true, true, true
@@ -190,8 +190,8 @@ func main() {
 		cases = catalogueCases(mod, *only, *skip, conc)
 		*n = 0
 	}
-	lenient := catalogue || *profile == "inject" || *profile == "minigo-neg" || *profile == "minigoc" // declarations may be rejected
-	minigo := *profile == "minigo" || *profile == "minigo-neg" || *profile == "minigol" || *profile == "minigoc"
+	lenient := catalogue || *profile == "inject" || *profile == "minigo-neg" || *profile == "minigoc" || *profile == "minigos" // declarations may be rejected
+	minigo := *profile == "minigo" || *profile == "minigo-neg" || *profile == "minigol" || *profile == "minigoc" || *profile == "minigos"
 	useL = *profile == "minigol"
 	var runner strings.Builder
 	runner.WriteString("package main\n\nimport (\n\t\"fmt\"\n\t\"sort\"\n\t\"strings\"\n")
@@ -213,8 +213,8 @@ func main() {
 		var pkg *progen.Package
 		var src string
 		var cprog *progen.CProg
-		if *profile == "minigoc" {
-			cprog = progen.GenerateCalls(r, name, c%5 == 4)
+		if *profile == "minigoc" || *profile == "minigos" {
+			cprog = progen.GenerateCalls(r, name, c%5 == 4, *profile == "minigos")
 			pkg = &progen.Package{Name: name, Calls: cprog.Calls}
 			src = cprog.Src
 		} else {
@@ -676,9 +676,14 @@ func (c *caseT) minigoC(coqflags []string, out string) {
 	var b strings.Builder
 	b.WriteString("From Coq Require Import ZArith String List.\nImport ListNotations.\nFrom GV Require Import Lang.GlSyntax Lang.GlSem Tr.MiniGo Tr.MiniGoC Tr.Decls Tr.MiniGoCProofs Tr.MiniGoCOrder.\n")
 	fmt.Fprintf(&b, "From Goose Require Import gen.%s.\nSet Printing Width 100000.\nOpen Scope string_scope.\n", strings.ReplaceAll(c.dir, "/", "."))
+	rec, trp, prog, call, show := "cfunc", "trc_prog", "cprog", "cgo_call", "show_cres"
+	if cp.Stateful {
+		rec, trp, prog, call, show = "sfunc", "trs_prog", "sprog", "sgo_call", "show_sres"
+		b.WriteString("From GV Require Import Tr.MiniGoS.\n")
+	}
 	var src []string
 	for _, n := range cp.Names {
-		fmt.Fprintf(&b, "Definition A_%s : cfunc := %s.\n", n, cp.Terms[n])
+		fmt.Fprintf(&b, "Definition A_%s : %s := %s.\n", n, rec, cp.Terms[n])
 		src = append(src, "A_"+n)
 	}
 	// the order of the emitted file is the order the model of Decls (Tr/Decls.v) computes from the
@@ -687,21 +692,23 @@ func (c *caseT) minigoC(coqflags []string, out string) {
 	for _, f := range fs {
 		qfs = append(qfs, strconv.Quote(f))
 	}
-	fmt.Fprintf(&b, "Definition A_src : cprog := [%s].\nEval vm_compute in \"MARK ORDER\".\nGoal option_map (fun o => filter (fun n => negb (String.eqb n %q)) (map cf_name (pick A_src o))) (emit_order (decls_of A_src)) = Some [%s]. Proof. vm_compute. reflexivity. Qed.\n",
-		strings.Join(src, "; "), cp.Bad, strings.Join(qfs, "; "))
-	fmt.Fprintf(&b, "Eval vm_compute in \"MARK PROG\".\nGoal trc_prog [%s] = Some [%s]. Proof. vm_compute. reflexivity. Qed.\n", strings.Join(as, "; "), strings.Join(fs, "; "))
+	if !cp.Stateful {
+		fmt.Fprintf(&b, "Definition A_src : cprog := [%s].\nEval vm_compute in \"MARK ORDER\".\nGoal option_map (fun o => filter (fun n => negb (String.eqb n %q)) (map cf_name (pick A_src o))) (emit_order (decls_of A_src)) = Some [%s]. Proof. vm_compute. reflexivity. Qed.\n",
+			strings.Join(src, "; "), cp.Bad, strings.Join(qfs, "; "))
+	}
+	fmt.Fprintf(&b, "Eval vm_compute in \"MARK PROG\".\nGoal %s [%s] = Some [%s]. Proof. vm_compute. reflexivity. Qed.\n", trp, strings.Join(as, "; "), strings.Join(fs, "; "))
 	all := as
 	if cp.Bad != "" && !emitted[cp.Bad] {
 		all = append(append([]string{}, as...), "A_"+cp.Bad)
-		fmt.Fprintf(&b, "Eval vm_compute in \"MARK REJECTED\".\nGoal trc_prog [%s] = None. Proof. vm_compute. reflexivity. Qed.\n", strings.Join(all, "; "))
+		fmt.Fprintf(&b, "Eval vm_compute in \"MARK REJECTED\".\nGoal %s [%s] = None. Proof. vm_compute. reflexivity. Qed.\n", trp, strings.Join(all, "; "))
 	}
-	fmt.Fprintf(&b, "Definition A_prog : cprog := [%s].\n", strings.Join(all, "; "))
+	fmt.Fprintf(&b, "Definition A_prog : %s := [%s].\n", prog, strings.Join(all, "; "))
 	for i, cl := range c.pkg.Calls {
 		var args []string
 		for j, a := range cl.Args {
 			args = append(args, strings.TrimSuffix(strings.TrimPrefix(coqArg(cl.ArgT[j], a), "("), ")"))
 		}
-		fmt.Fprintf(&b, "Eval vm_compute in (\"GO\", %d%%nat, show_cres (cgo_call 5000%%nat A_prog %q [%s])).\n", i, cl.Fn, strings.Join(args, "; "))
+		fmt.Fprintf(&b, "Eval vm_compute in (\"GO\", %d%%nat, %s (%s 5000%%nat A_prog %q [%s])).\n", i, show, call, cl.Fn, strings.Join(args, "; "))
 	}
 	cmd := exec.Command("timeout", "300", "coqtop", "-q")
 	cmd.Args = append(cmd.Args, coqflags...)
